@@ -93,7 +93,8 @@ def C10(ctx):
     mc(ctx, "MC_UriCanon", law_cfg("BrokenQueryLaws", "query_lists", 2), expect_violation="BrokenQueryLaws",
        label="neg-rendered-sort")
     fn_campaign(ctx,
-                [("query_bytes", 0), ("query_escapes", 0), ("query_many", 0), ("query_ampamp", 2), ("query_lists", 2 if q else 3)],
+                [("query_bytes", 0), ("query_escapes", 0), ("query_trunc", 0), ("query_many", 0), ("query_ampamp", 2),
+                 ("query_lists", 2 if q else 3)],
                 [("query", 4000 if q else 200000)])
     fresh_process_determinism(ctx, "query_lists", 2, 4 if q else 16, "fresh-processes")
     fresh_process_determinism(ctx, "query_many", 0, 4 if q else 16, "fresh-processes-many")
@@ -353,7 +354,7 @@ def C04(ctx):
     # triples is the inclusive window on nanoseconds (Apalache / SMT)
     apalache(ctx, "CivilLemma", "Lemmas")
     fn_campaign(ctx, [("ts_field", 0), ("ts_seps", 0)], [])     # the textual forms themselves (hour 24, offsets, ...)
-    req_campaign(ctx, [("window", 0 if q else 1), ("window_frac", 0), ("expires", 0)])
+    req_campaign(ctx, [("window", 0 if q else 1), ("window_frac", 0), ("expires", 0), ("midnight", 0), ("dup", 0)])
     return dict(
         rule="E: request instants at every whole-second offset %s from the server time plus 1 ns and 0.5 s either side of "
              "both bounds, rendered in 5 textual forms (basic Z, extended Z, +05:30, -0245, 9-digit fraction), both "
@@ -523,7 +524,7 @@ def C07(ctx):
 def C08(ctx):
     q = ctx.quick
     fn_campaign(ctx, [("foldsize", 0), ("errtable", 0), ("builders", 0), ("key_caps", 0), ("vreqs", 2 if q else 3),
-                      ("ts_affix", 0), ("path_trunc", 0), ("helper_bytes", 0), ("helper_trim", 3 if q else 5)],
+                      ("ts_affix", 0), ("path_trunc", 0), ("query_trunc", 0), ("helper_bytes", 0), ("helper_trim", 3 if q else 5)],
                 [("ts", 3000 if q else 100000), ("key", 2000 if q else 50000), ("path", 3000 if q else 100000),
                  ("query", 3000 if q else 100000), ("hval", 2000 if q else 50000)])
     req_campaign(ctx, [("charsets", 0), ("degenerate", 0), ("defects", 1 if q else 2), ("leak_long", 0), ("cfgmix", 0, 13 if q else 1)])
